@@ -1164,7 +1164,7 @@ class Array:
         qtotal = self.chinfo.make_valid(self.qtotal + leg.get_charge(qi))
         extended = Array(legs, self.dtype, qtotal)
         extended._labels = labels
-        slices = [slice(None, None)] * self.rank
+        slices = [slice(None, None)] * extended.rank  # (one more than self.rank: `axis` may be the last)
         slices[axis] = i
         extended[tuple(slices)] = self  # use existing implementation
         return extended
@@ -2102,7 +2102,7 @@ class Array:
         labels = self._labels
         labels[axis1], labels[axis2] = labels[axis2], labels[axis1]
         self._set_shape()
-        self._qdata = self._qdata[:, swap]
+        self._qdata = np.array(self._qdata[:, swap], order='C')  # (column selection is F-contiguous)
         self._qdata_sorted = False
         self._data = [t.swapaxes(axis1, axis2) for t in self._data]
         return self
